@@ -29,43 +29,43 @@ def run(ctx: Ctx):
         "multiple": "shape = ({shape}, states.shape[1])",
     }
     ctx.check(set(members) == set(want), "R14.b", f.key("members"), "Shape = dynamic | single | multiple", f"Shape members {sorted(members)} differ from {sorted(want)}", f.where())
+    from sa import te
+    from . import util
+
     got = {}
-    for n in ast.walk(f.node):
-        if isinstance(n, ast.If):
-            t = norm(n.test)
-            for m in want:
-                if t.replace(" ", "") in (f"self._shape==Shape.{m}", f"Shape.{m}==self._shape"):
-                    rets = [s for s in n.body if isinstance(s, ast.Return)]
-                    if rets:
-                        got[m] = fstring_skeleton(rets[0].value)
+    for p_ in te.enumerate_paths(f.node.body):
+        if p_.exit != "return" or p_.exit_node.value is None:
+            continue
+        mem = [m for m in want for a, pol in p_.lits if pol and a.replace(" ", "") in (f"self._shape==Shape.{m}", f"Shape.{m}==self._shape")]
+        if len(mem) == 1:
+            got[mem[0]] = util.fstr(f, p_.exit_node.value)
     p = f.params[1] if len(f.params) > 1 else "shape"
     for m, w in want.items():
         ww = w.replace("{shape}", "{" + p + "}")
         ctx.check(got.get(m) == ww, "R14.b", f.key(f"branch::{m}"), f"{m}: `{ww}`", f"_shape_info for Shape.{m} emits {got.get(m)!r}, expected {ww!r} (the second axis of the result must be the batch axis states.shape[1])", f.where())
     for mname in ("monitor_values", "missing_values"):
-        g = cgc.methods[mname]
-        tc = [c for c in find_calls(g.node, "template.method")]
+        g = util.nff(ctx, cgc.methods[mname])
+        tc = util.template_method_call(g)
         ctx.require(tc, f"CodeGenerator.{mname}: template.method call not found")
-        vt = const_str(call_kw(tc[0], "values_type"))
-        si = call_kw(tc[0], "shape_info")
-        ok = vt == "numpy.zeros(shape)" and si is not None and isinstance(si, ast.Name)
-        src = None
-        if ok:
-            defs = [n for n in ast.walk(g.node) if isinstance(n, ast.Assign) and norm(n.targets[0]) == si.id]
-            src = norm(defs[0].value) if defs else None
-            ok = src is not None and src.startswith("self._shape_info(")
-        ctx.check(ok, "R14.b", g.key("allocation"), "values = numpy.zeros(shape) with shape from _shape_info", f"CodeGenerator.{mname}: result is allocated as {vt!r} with shape_info={src!r}; expected numpy.zeros(shape) / self._shape_info(...)", g.where(tc[0]))
+        vt = const_str(util.canon_of(g).resolve(call_kw(tc, "values_type"))) if call_kw(tc, "values_type") is not None else None
+        si = call_kw(tc, "shape_info")
+        src = util.ctext(g, si) if si is not None else None
+        # after inlining, _shape_info's result is a local of the normal form; accept either the call or its expansion
+        ok = vt == "numpy.zeros(shape)" and si is not None and (("_shape_info(" in (src or "")) or any(isinstance(n, ast.Compare) and "Shape." in norm(n) for n in ast.walk(g.node)))
+        ctx.check(ok, "R14.b", g.key("allocation"), "values = numpy.zeros(shape) with shape from _shape_info", f"CodeGenerator.{mname}: result is allocated as {vt!r} with shape_info={src!r}; expected numpy.zeros(shape) / self._shape_info(...)", g.where(tc))
     for mname in ("rhs", "scheme"):
-        g = cgc.methods[mname]
-        tc = [c for c in find_calls(g.node, "template.method")]
-        vt = call_kw(tc[0], "values_type")
-        si = call_kw(tc[0], "shape_info")
-        ok = vt is not None and norm(vt) == "rhs.values_type" and si is not None and const_str(si) == ""
-        ctx.check(ok, "R14.b", g.key("allocation"), "values = Func.values_type (zeros_like(states))", f"CodeGenerator.{mname}: values_type={norm(vt) if vt is not None else None}, shape_info={norm(si) if si is not None else None}", g.where(tc[0]))
+        g = util.nff(ctx, cgc.methods[mname])
+        tc = util.template_method_call(g)
+        ctx.require(tc, f"CodeGenerator.{mname}: template.method call not found")
+        vt = call_kw(tc, "values_type")
+        si = call_kw(tc, "shape_info")
+        vtx = util.ctext(g, vt) if vt is not None else ""
+        ok = vtx.endswith(").values_type") and ("_rhs_arguments(" in vtx or "_scheme_arguments(" in vtx) and si is not None and const_str(util.canon_of(g).resolve(si)) == ""
+        ctx.check(ok, "R14.b", g.key("allocation"), "values = Func.values_type (zeros_like(states))", f"CodeGenerator.{mname}: values_type={vtx}, shape_info={util.ctext(g, si) if si is not None else None}", g.where(tc))
     for qn in ("PythonCodeGenerator._rhs_arguments", "PythonCodeGenerator._scheme_arguments"):
-        g = sm.func("codegen/python.py", qn)
+        g = util.nf(ctx, "codegen/python.py", qn)
         fc = [c for c in find_calls(g.node, "Func")]
-        vt = const_str(call_kw(fc[0], "values_type")) if fc else None
+        vt = const_str(util.canon_of(g).resolve(call_kw(fc[0], "values_type"))) if fc and call_kw(fc[0], "values_type") is not None else None
         ctx.check(vt == "numpy.zeros_like(states, dtype=numpy.float64)", "R14.b", g.key("values_type"), "numpy.zeros_like(states, dtype=numpy.float64)", f"{qn}: values_type is {vt!r}; the result must have the shape of `states` (one column per input column)", g.where())
     T = tm.TemplateModel(sm)
     sk = T.skeleton("templates/python.py", "method")
